@@ -248,11 +248,16 @@ Fixpoint pis (is_module : bool) (s : pstmt) {struct s} : list pstmt :=
   then expanded ++ [PEmit E_after_module_stmt n (Some (RExp (XLoadSaved n))) None]
   else expanded.
 
-Definition pinstr_module (body : list pstmt) : list pstmt :=
+Definition pinstr_module0 (body : list pstmt) : list pstmt :=
   (if sub c E_init_module then [PEmit E_init_module 0 None None] else [])
   ++ flat_map (pis true) body
   ++ (if sub c E_exit_module then [PEmit E_exit_module 0 None None] else []).
 End Instr.
+
+(* a module docstring stays as written and first (as in FragSem.tdoc / trest) *)
+Definition pdoc (body : list pstmt) : list pstmt := match body with d :: _ => if p_is_docstring d then [d] else [] | [] => [] end.
+Definition prest (body : list pstmt) : list pstmt := match body with d :: rest => if p_is_docstring d then rest else body | [] => [] end.
+Definition pinstr_module (c : rcfg) (ge : bool) (body : list pstmt) : list pstmt := pdoc body ++ pinstr_module0 c ge (prest body).
 
 (* ---------------------------------------------------------------- the definitions of a program, scoping *)
 Fixpoint pfind_def (n : N) (s : pstmt) {struct s} : option (list N * list pstmt) :=
@@ -582,8 +587,9 @@ Fixpoint pcallr (ptab : N -> option (list N * list pstmt)) (d : nat) {struct d} 
   | S d' => pdo_callr ptab (pcallr ptab d')
   end.
 
-Definition pref_module (d : nat) (body : list pstmt) (r : env) : prres :=
+Definition pref_module0 (d : nat) (body : list pstmt) (r : env) : prres :=
   let a := pref_l (pcallr (pdefs_of body) d) false true None (fun _ => None) body r [(E_init_module, 0, Some VNone)] in
   {| pr_exc := pr_exc a; pr_env := pr_env a;
      pr_log := (E_init_module, 0, Some VNone) :: pr_log a ++ match pr_exc a with None => [(E_exit_module, 0, Some VNone)] | Some _ => [] end |}.
+Definition pref_module (d : nat) (body : list pstmt) (r : env) : prres := pref_module0 d (prest body) r.
 End Sem.
